@@ -148,10 +148,14 @@ def answers_st(draw, ids, n, skew=True):
 
 @st.composite
 def cat_var_st(draw, alias, n, flavour="cat", min_valid=1, max_valid=5, max_missing=2,
-               numeric="some", allow_order_key=True):
+               numeric="some", allow_order_key=True, skew=True):
     cats = draw(categories_st(min_valid, max_valid, max_missing, flavour, numeric))
     ids = [c["id"] for c in cats]
-    answers = draw(answers_st(ids, n))
+    if not skew:
+        # favour valid categories so that tables are well populated
+        ids = ids + [c["id"] for c in cats if not c["missing"]] * 2
+    answers = draw(answers_st(ids, n, skew))
+    ids = [c["id"] for c in cats]
     use_order = False
     if allow_order_key and flavour in ("cat", "cat_date") and len(cats) > 1:
         use_order = draw(st.integers(0, 5)) == 0
@@ -203,11 +207,11 @@ def mr_var_st(draw, alias, n, min_items=1, max_items=4, eid_scheme=None):
 
 @st.composite
 def ca_var_st(draw, alias, n, min_items=1, max_items=3, min_valid=1, max_valid=4,
-              max_missing=2, numeric="some"):
+              max_missing=2, numeric="some", skew=True):
     items = draw(items_st(alias, min_items, max_items))
     cats = draw(categories_st(min_valid, max_valid, max_missing, "cat", numeric))
     ids = [c["id"] for c in cats]
-    cols = [draw(answers_st(ids, n)) for _ in items]
+    cols = [draw(answers_st(ids, n, skew)) for _ in items]
     answers = [[cols[i][r] for i in range(len(items))] for r in range(n)]
     return {"type": "ca", "alias": alias, "name": alias.upper(), "items": items,
             "cats": cats, "answers": answers}
@@ -232,5 +236,7 @@ def numarr_var_st(draw, alias, n, min_items=1, max_items=3):
 
 
 @st.composite
-def n_st(draw, max_n=24):
+def n_st(draw, max_n=24, min_n=0):
+    if min_n > 3:
+        return draw(st.integers(min_n, max_n))
     return draw(st.one_of(st.integers(0, 3), st.integers(4, 14), st.integers(4, max_n)))
